@@ -30,7 +30,7 @@ REQUIRED_CLASSES = [
     "interval_random:decimal_shrink_moves_entry",
     "interval_random:straddler",
     "interval_random:after_in_place_edit",
-    "interval_random:straddler_with_touching_follower",
+    "straddle_decimal:straddler_with_touching_follower",
     "textgrid_random:textgrid_longer_than_tiers",
 ]
 
@@ -240,9 +240,9 @@ def region_for(draw, entries_list, style, minT, maxT, degenerate=True):
         a, b = en[0] + w * f0, en[0] + w * f1
         if not (en[0] < a < b < en[1]):
             a, b = en[0], en[1]
-    elif r == 0:
+    elif r == 17:  # (Hypothesis favours 0 and the end points: keep the degenerate cases off them)
         b = a
-    elif r == 1:
+    elif r == 23:
         a, b = max(a, b), min(a, b)
     else:
         if a > b:
